@@ -740,10 +740,29 @@ def check_accepts_own_result(ctx):
                     continue
                 true_raises = any(lbl is True and (s.kind == "raise" or (s.kind == "call" and any(x.kind == "raise" for x, _ in s.succ)))
                                   for s, lbl in t.succ)
+                def is_vtest(x):
+                    return x.kind == "test" and isinstance(x.ast, ast.Call) and ast.unparse(x.ast.func) == "isinstance" and len(x.ast.args) == 2 \
+                        and isinstance(x.ast.args[0], ast.Name) and x.ast.args[0].id == vparam
+
+                def rejecting(x, depth=0):
+                    """the other types are turned away: the False outcome raises, directly or at the end of an elif chain of such tests"""
+                    if depth > 8:
+                        return False
+                    for s_, lbl_ in x.succ:
+                        if lbl_ is False:
+                            if s_.kind == "raise" or (s_.kind == "call" and any(y.kind == "raise" for y, _ in s_.succ)):
+                                return True
+                            if is_vtest(s_) and rejecting(s_, depth + 1):
+                                return True
+                            # (the next `elif isinstance(...)`: the call node that evaluates it, then the test)
+                            if s_.kind == "call" and any(is_vtest(y) and rejecting(y, depth + 1) for y, _ in s_.succ):
+                                return True
+                    return False
+                false_raises = rejecting(t)
                 if true_raises:
                     rejected += spec
-                else:
-                    gate = (gate or []) + spec
+                elif false_raises:
+                    gate = (gate or []) + spec      # a gate turns the other types away; `if isinstance(v, str): v = convert(v)` does not
         if unknown:
             continue
         if not gate:
